@@ -88,7 +88,7 @@ func (wtr *XMLWtr) container(lvl int) node.Node {
 		if !meta.IsLeaf(r.Selection.Meta()) && (r.Selection.InsideList || !meta.IsList(r.Selection.Meta())) {
 			if lvl == 0 && first {
 				ns := wtr.getXmlns(r.Selection.Path)
-				ident := wtr.ident(r.Selection.Path) + " xmlns=" + "\"" + ns + "\""
+				ident := wtr.ident(r.Selection.Path) + xmlnsAttr(ns)
 				if err := wtr.beginContainer(ident); err != nil {
 					return err
 				}
@@ -171,9 +171,18 @@ func (wtr *XMLWtr) nsChange(p *node.Path) string {
 
 func (wtr *XMLWtr) nsChangeAttr(p *node.Path) string {
 	if ns := wtr.nsChange(p); ns != "" {
-		return " xmlns=" + "\"" + ns + "\""
+		return xmlnsAttr(ns)
 	}
 	return ""
+}
+
+// xmlnsAttr is the namespace declaration for an element, the URI escaped like any attribute value
+func xmlnsAttr(ns string) string {
+	var b bytes.Buffer
+	b.WriteString(" xmlns=\"")
+	xml.EscapeText(&b, []byte(ns))
+	b.WriteString("\"")
+	return b.String()
 }
 
 func (wtr *XMLWtr) beginContainer(ident string) (err error) {
